@@ -314,6 +314,28 @@ func runC10(r *core.Run) {
 						fail("constructor-layout", out, in)
 					}
 				}
+				// padding of every length 0..400 handed to the constructor: whatever it accepts must store, as the value's
+				// padding, exactly the bytes that end up between the two keys of the 384-byte block
+				if fill == 0 && e3 == nil && e4 == nil {
+					gap := 384 - cl - si.PubLen
+					for pl := 0; pl <= 400; pl++ {
+						r.Evaluations.Add(1)
+						pad := refmodel.Fill("pad2", uint64(pl), pl)
+						var nk *keys_and_cert.KeysAndCert
+						var err error
+						if pan, _ := core.Guard(func() { nk, err = keys_and_cert.NewKeysAndCert(kc, lpk, pad, lsk) }); pan || err != nil || nk == nil {
+							continue
+						}
+						out, berr := nk.Bytes()
+						if berr != nil || len(out) < 384 {
+							continue // C14's clause
+						}
+						if len(nk.Padding) != gap || !bytes.Equal(nk.Padding, out[cl:384-si.PubLen]) {
+							r.Violate("C10|layout|constructor-padding-is-not-the-bytes-between-the-keys|"+id, fmt.Sprintf("%s: NewKeysAndCert accepts %d bytes of padding (the gap is %d): the value reports %d bytes of padding, its serialisation has %d between the keys", id, pl, gap, len(nk.Padding), gap), core.Case{Kind: "sweep", Args: map[string]string{"pair": id, "padlen": fmt.Sprint(pl)}})
+							break
+						}
+					}
+				}
 				// values assembled field by field with a key object of an undeclared length: whatever the
 				// validator accepts must hold keys of exactly the declared lengths (and serialise to the layout)
 				if fill == 0 && e3 == nil && e4 == nil {
